@@ -287,6 +287,21 @@ def assign_anon_scopes(prog, observed_symbol_paths, parser_ids=None):
     return True
 
 
+def assign_file_scopes(files, file_ids):
+    """The same naming for the anonymous scopes of the imported files (an imported file may import, loop or brace itself):
+    file_ids = the harness's per-file parser scope names. Files without anonymous scopes need none."""
+    for fn, fp in files.items():
+        sts = anon_scopes_postorder(fp)
+        if not sts:
+            continue
+        ids = (file_ids or {}).get(fn)
+        if ids is None or len(ids) != len(sts):
+            return False
+        for st, n in zip(sts, ids):
+            st["sid"] = n
+    return True
+
+
 def tla_ready(prog):
     """Deep copy of the AST with only the fields Asm.tla reads (sid = statement number as string where the spec wants one)."""
     out = []
@@ -833,14 +848,27 @@ class Gen7:
         if r.random() < 0.45:
             fn = "inc.asm"
             inm = self.fresh("i")
-            form = r.choice(["all", "allas", "allas-params", "sel", "sel-as", "sel-params"])
+            form = r.choice(["all", "allas", "allas-params", "sel", "sel-as", "sel-params", "nested-all", "nested-allas"])
             with_params = form.endswith("params")
+            nested = form.startswith("nested")
+            if nested:
+                # the imported file has an import of its own, under an alias: the alias is one of ITS names and travels with
+                # a wildcard import like any other (`lib.x` in the outermost importer)
+                form = form[len("nested-"):]
+                inm2 = self.fresh("i")
+                files["inc2.asm"] = [label(inm2), insn("ldy", "imm", num(r.randrange(256))), insn("rts")]
             body = [label(inm), insn("lda", "imm", ident(["ipar"]) if with_params else num(r.randrange(256))), insn("sta", "dir", ident([inm])), insn("rts")]
             if form != "all" and r.random() < 0.6:     # (`.import *` would import kk0 and dat as well: a clash with the importer's own)
                 # the imported name is a block that uses other symbols of ITS file, while the importing file has symbols of
                 # the same names with other values: inside the block the file's own symbols are meant
                 body = [const("kk0", num(r.choice([5, 77]))), label("dat"), insn("rts"),
                         label(inm, [insn("lda", "imm", ident(["ipar"]) if with_params else ident(["kk0"])), insn("jsr", "dir", ident(["dat"])), insn("ldx", "imm", ident(["kk0"])), insn("rts")])]
+            if nested:
+                body = [b for b in body if not (b["k"] == "const" and b["name"] == "kk0") and not (b["k"] == "label" and b["name"] == "dat" and not b["hasBody"])]
+                for b in body:
+                    if b["k"] == "label" and b["hasBody"]:
+                        b["body"] = [insn("lda", "imm", num(9)), insn("rts")]
+                body = body + [import_("inc2.asm", "lib"), insn("jsr", "dir", ident(["lib", inm2]))]
             files[fn] = body
             params = [const("ipar", num(r.choice([3, 77])))] if with_params else None
             if form == "all":
@@ -854,6 +882,8 @@ class Gen7:
                 prog.append(import_(fn, None, params, sel=[(inm, newname)]))
                 ref = [newname]
             prog.append(insn("jsr", "dir", ident(ref)))
+            if nested:
+                prog.append(insn("jsr", "dir", ident(ref[:-1] + ["lib", inm2])))
         for _ in range(r.randrange(2, 6)):
             prog.append(self.construct(1, False, [], True))
         prog.append(label("tgt"))
